@@ -92,6 +92,15 @@ def run_case(case, ch: Choices) -> RunResult:
     trace: List[str] = ["world=%s shape=%s config=%s" % (world.get("id", "drawn"), json.dumps(world.get("shape")), json.dumps(world["config"]))]
     trace.append("schema_partition=%s queries_partition=%s" % (json.dumps(spart), json.dumps(qpart)))
     envs = []
+    _rc = genrun.run_child
+    _loc = [None]
+
+    def run_child(*a, **kw):
+        # (only for projects whose non-ASCII text cannot reach the generated files: on this tree the package writer uses the
+        # locale's encoding, so others fail under an ASCII locale - an observation outside the claimed properties)
+        if _loc[0] is not None and world.get("locale_safe"):
+            kw.setdefault("proc_env", genrun.LOCALE_ENVS[_loc[0] % len(genrun.LOCALE_ENVS)])
+        return _rc(*a, **kw)
     try:
         # ---- reference step: fresh everything
         root0 = os.path.join(base, "s0")
@@ -102,7 +111,7 @@ def run_case(case, ch: Choices) -> RunResult:
         if symlink_seed is not None or world.get("layout_symlink"):
             res.bump("probe.schema_file_reachable_under_two_names")
         m0 = worlds.materialize(world, root0, spart, qpart, tail_seed=tail_seed, symlink_seed=symlink_seed)
-        r0 = genrun.run_child(root0, m0["argv"], m0["targets"], hashseed=0, clock=1_700_000_000.0)
+        r0 = run_child(root0, m0["argv"], m0["targets"], hashseed=0, clock=1_700_000_000.0)
         if r0.get("harness_failure"):
             raise RuntimeError("child failed: %s" % r0.get("child_stderr"))
         if r0.get("timeout"):
@@ -129,12 +138,16 @@ def run_case(case, ch: Choices) -> RunResult:
                       "clock": 1_700_000_000.0 + ch.pick("env.clock", [0, 1, 86400 * 365, -10 ** 8]),
                       "prior": ch.weighted("env.prior", [("fresh", 3), ("over_existing", 3), ("twice", 2), ("crashed_prefix", 3),
                                                          ("same_process_twice", 2), ("same_process_after_other", 2),
-                                                         ("same_process_after_edit", 2)]),
+                                                         ("same_process_after_edit", 2), ("same_process_other_strategy", 2),
+                                                         ("over_existing_perturbed", 3), ("other_cwd", 2)]),
                       "crash_at": None, "crash_kind": None}
                 if st["prior"] == "crashed_prefix":
                     st["crash_at"] = 1 + ch.draw("env.crash_at", max(1, writes0))
                     st["crash_kind"] = ch.pick("env.crash_kind", ["crash", "enospc", "eio", "torn", "torn", "empty"])
             envs.append(st)
+            _loc[0] = (st.get("hashseed") or 0) + si if world.get("locale_safe") else None
+            if _loc[0] is not None:
+                res.bump("fault.locale_of_the_generating_process_changed")
             root = os.path.join(base, "s%d" % si)
             m = worlds.materialize(world, root, spart, qpart, creation_order_seed=st["creation_seed"], tail_seed=tail_seed,
                                    symlink_seed=symlink_seed)
@@ -156,6 +169,14 @@ def run_case(case, ch: Choices) -> RunResult:
                     res.bump("prior.same_process_after_edit")
                 else:
                     prior = "fresh"
+            elif prior == "same_process_other_strategy":
+                # one interpreter first runs the OTHER strategy on the very same schema text (a build script producing both the
+                # client and the schema module), then the judged generation
+                pre_runs = _other_strategy_project(world, os.path.join(base, "s%d_otherstrategy" % si), spart, tail_seed, symlink_seed)
+                if pre_runs:
+                    res.bump("prior.same_process_other_strategy")
+                else:
+                    prior = "fresh"
             elif prior == "same_process_after_other":
                 # one interpreter first generates another project, then this one
                 others = [w for w in corpus.all_worlds() if w["id"] != world.get("id")]
@@ -172,8 +193,44 @@ def run_case(case, ch: Choices) -> RunResult:
                 elif os.path.isfile(src):
                     shutil.copyfile(src, target)
                 res.bump("prior.over_existing")
+            elif prior == "over_existing_perturbed":
+                # the previous generation was touched since: line endings converted (git autocrlf), a line appended by hand, a
+                # file emptied, time stamps moved - regenerating must still give exactly the fresh result
+                src = m0["targets"][0]
+                if os.path.isdir(src):
+                    shutil.copytree(src, target, dirs_exist_ok=True)
+                elif os.path.isfile(src):
+                    shutil.copyfile(src, target)
+                import random as _random
+                prng = _random.Random((st.get("hashseed") or 0) * 7919 + (st.get("enum_seed") or 0))
+                files_ = [target] if os.path.isfile(target) else sorted(
+                    os.path.join(dp, f) for dp, _d, fs in os.walk(target) for f in fs if "__pycache__" not in dp)
+                kinds_ = []
+                for fp in files_:
+                    how = prng.choice(["crlf", "crlf", "append", "empty", "mtime_future", "mtime_past", "none", "cr", "trailing_ws"])
+                    kinds_.append(how)
+                    data = open(fp, "rb").read()
+                    if how == "crlf":
+                        data = data.replace(b"\r\n", b"\n").replace(b"\n", b"\r\n")
+                    elif how == "cr":
+                        data = data.replace(b"\n", b"\r")
+                    elif how == "append":
+                        data = data + b"# edited by hand\n"
+                    elif how == "empty":
+                        data = b""
+                    elif how == "trailing_ws":
+                        data = data.replace(b"\n", b"  \n", 3)
+                    if how in ("crlf", "cr", "append", "empty", "trailing_ws"):
+                        with open(fp, "wb") as f_:
+                            f_.write(data)
+                    elif how == "mtime_future":
+                        os.utime(fp, (4102444800, 4102444800))
+                    elif how == "mtime_past":
+                        os.utime(fp, (86400, 86400))
+                res.bump("prior.over_existing_perturbed")
+                trace.append("step%d: previous generation perturbed: %s" % (si, dict((k, kinds_.count(k)) for k in set(kinds_))))
             elif prior == "crashed_prefix":
-                rc = genrun.run_child(root, m["argv"], m["targets"], hashseed=st["hashseed"], enum_seed=st["enum_seed"], clock=st["clock"],
+                rc = run_child(root, m["argv"], m["targets"], hashseed=st["hashseed"], enum_seed=st["enum_seed"], clock=st["clock"],
                                       fault={"kind": st["crash_kind"], "at": st["crash_at"], "num": 1 + (st["crash_at"] % 3), "den": 4})
                 if rc.get("harness_failure"):
                     raise RuntimeError("child failed: %s" % rc.get("child_stderr"))
@@ -184,13 +241,44 @@ def run_case(case, ch: Choices) -> RunResult:
                 else:
                     res.bump("fault.crash_not_reached")
             elif prior == "twice":
-                r1 = genrun.run_child(root, m["argv"], m["targets"], hashseed=(st["hashseed"] + 1) % 2 ** 32, enum_seed=st["enum_seed"], clock=st["clock"] - 5)
+                r1 = run_child(root, m["argv"], m["targets"], hashseed=(st["hashseed"] + 1) % 2 ** 32, enum_seed=st["enum_seed"], clock=st["clock"] - 5)
                 if r1.get("harness_failure"):
                     raise RuntimeError("child failed: %s" % r1.get("child_stderr"))
                 res.bump("prior.twice")
             elif prior == "fresh":
                 res.bump("prior.fresh")
-            r = genrun.run_child(root, m["argv"], m["targets"], hashseed=st["hashseed"], enum_seed=st["enum_seed"], clock=st["clock"],
+            if prior == "other_cwd" and ref["exit"] == 0:
+                # the same project (absolute paths in its configuration) generated from three working directories: its root, a
+                # sub-directory of it (configuration found by walking up) and a directory outside (--config)
+                _absolutise(m, root)
+                inner = os.path.join(root, "zz_cwd", "inner")
+                os.makedirs(inner, exist_ok=True)
+                outs = []
+                for cwd_, argv_ in ((root, m["argv"]), (inner, m["argv"]), (base, ["--config", m["config_path"]] + m["argv"])):
+                    if os.path.isdir(target):
+                        shutil.rmtree(target)
+                    elif os.path.exists(target):
+                        os.unlink(target)
+                    rr = run_child(cwd_, argv_, m["targets"], hashseed=st["hashseed"], enum_seed=st["enum_seed"], clock=st["clock"])
+                    if rr.get("harness_failure"):
+                        raise RuntimeError("child failed: %s" % rr.get("child_stderr"))
+                    outs.append(_outcome(rr, root, target))
+                    res.bump("generations")
+                res.bump("prior.other_cwd")
+                for wi_, o_ in enumerate(outs[1:], 1):
+                    where_ = ["its root", "a sub-directory", "a directory outside"][wi_]
+                    if o_["exit"] != outs[0]["exit"] or o_["exc_type"] != outs[0]["exc_type"]:
+                        res.violations.append(Violation("outcome-differs", "step %d: generated from %s: exit %s / %s (%r), from the project root exit %s / %s" % (
+                            si, where_, o_["exit"], o_["exc_type"], o_["exc_msg"], outs[0]["exit"], outs[0]["exc_type"]), {"prior": "other_cwd"}))
+                    elif o_["tree"] != outs[0]["tree"]:
+                        diff = sorted(k for k in set(o_["tree"]) | set(outs[0]["tree"]) if o_["tree"].get(k) != outs[0]["tree"].get(k))
+                        res.violations.append(Violation("files-differ", "step %d: generated from %s, %d file(s) differ from the generation run in the project root: %s" % (
+                            si, where_, len(diff), diff[:6]), {"prior": "other_cwd", "file": _file_class(diff[0]) if diff else None}))
+                trace.append("step%d: env=%s -> three working directories, exits %s" % (si, json.dumps(st), [o_["exit"] for o_ in outs]))
+                continue
+            elif prior == "other_cwd":
+                prior = "fresh"
+            r = run_child(root, m["argv"], m["targets"], hashseed=st["hashseed"], enum_seed=st["enum_seed"], clock=st["clock"],
                                  pre_runs=pre_runs, timeout=90 if not pre_runs else 200)
             if r.get("harness_failure"):
                 raise RuntimeError("child failed: %s" % r.get("child_stderr"))
@@ -289,6 +377,51 @@ def _edited_earlier_revision(world, root, m, st):
     return [{"cwd": root, "argv": m["argv"],
              "then_write": [{"path": victim, "text": orig}, {"path": cfg_path, "text": cfg_text}]}]
 
+
+def _absolutise(m, root):
+    """Rewrites the project's configuration so that every path option is absolute."""
+    cfg = dict(m["cfg"])
+    for k in ("schema_path", "queries_path", "target_package_path", "base_client_file_path", "target_file_path"):
+        if isinstance(cfg.get(k), str) and cfg[k] and not os.path.isabs(cfg[k]):
+            cfg[k] = os.path.join(root, cfg[k])
+    if isinstance(cfg.get("files_to_include"), list):
+        cfg["files_to_include"] = [x if os.path.isabs(x) else os.path.join(root, x) for x in cfg["files_to_include"]]
+    with open(m["config_path"], "w", encoding="utf-8") as f:
+        f.write(worlds.toml_dumps(cfg))
+
+
+def _other_strategy_project(world, oroot, spart, tail_seed=None, symlink_seed=None):
+    """A project holding the same schema text as `world` but configured for the other strategy."""
+    from graphql import build_schema, get_named_type, is_leaf_type, is_non_null_type
+    other = dict(world)
+    other["config"] = {}
+    other["aux_files"] = {}
+    if world["strategy"] == "client":
+        other["strategy"] = "graphqlschema"
+        other["ops"], other["frags"] = [], []
+        om = worlds.materialize(other, oroot, spart, None, tail_seed=tail_seed, symlink_seed=symlink_seed)
+        return [{"cwd": oroot, "argv": om["argv"]}]
+    # graphqlschema -> client: needs one operation; select a scalar field of the query type that takes no required argument
+    try:
+        schema = build_schema(worlds.sdl_of(world))
+    except Exception:
+        return None
+    q = schema.query_type
+    if q is None:
+        return None
+    pick = None
+    for fname, f in q.fields.items():
+        if is_leaf_type(get_named_type(f.type)) and not any(is_non_null_type(a.type) for a in f.args.values()):
+            pick = fname
+            break
+    if pick is None:
+        return None
+    other["strategy"] = "client"
+    other["ops"] = [{"name": "ZzOtherStrategy", "text": "query ZzOtherStrategy {\n  %s\n}" % pick}]
+    other["frags"] = []
+    om = worlds.materialize(other, oroot, spart, None, tail_seed=tail_seed, symlink_seed=symlink_seed)
+    return [{"cwd": oroot, "argv": om["argv"]}]
+
 def _mixes_two(world) -> bool:
     import re
     for f in world["frags"]:
@@ -330,11 +463,11 @@ def plan(tier, base_seed) -> Plan:
     n_drawn = 70 if tier == "quick" else 400
     # corpus worlds: a fixed environment sweep (every table hash seed once, permuted enumeration, crash)
     forced_sets = []
-    for i, hs in enumerate(HASHSEEDS[1:6] if tier == "quick" else HASHSEEDS[1:]):
+    for i, hs in enumerate(HASHSEEDS[1:7] if tier == "quick" else (HASHSEEDS[1:] + [5, 11, 13])):
         forced_sets.append({"hashseed": hs, "enum_seed": 100 + i, "creation_seed": 7 + i, "clock": 1_700_000_000.0 + i,
-                            "prior": ["crashed_prefix", "over_existing", "same_process_twice", "same_process_after_other", "same_process_after_edit",
-                                      "crashed_prefix", "twice", "fresh"][i % 8],
-                            "crash_at": [3, 0, 0, 0, 0, 8, 0, 0][i % 8], "crash_kind": ["torn", "crash", "crash", "crash", "crash", "empty", "crash", "crash"][i % 8]})
+                            "prior": ["crashed_prefix", "over_existing_perturbed", "same_process_twice", "same_process_other_strategy", "same_process_after_edit",
+                                      "other_cwd", "same_process_after_other", "over_existing"][i % 8],
+                            "crash_at": [3, 0, 0, 0, 0, 0, 0, 0][i % 8], "crash_kind": ["torn", "crash", "crash", "crash", "crash", "crash", "crash", "crash"][i % 8]})
     n_corpus = len(cws)
     # thorough: the previous generation is torn at EVERY write of a corpus world, systematically (kinds alternate)
     sweeps = []
